@@ -120,10 +120,8 @@ def _kf02(case, impl_res, bad):
             off += s
     if not groups_hit:
         return False
-    exp = sorted(case["expected"]) if case.get("expected") else sorted({l for l in labs if not (isinstance(l, float) and math.isnan(l))})
-    for g, _, _ in bad:
-        gg = exp[g] if isinstance(g, int) and not isinstance(g, bool) and g < len(exp) and g not in exp else g
-        if g not in groups_hit and gg not in groups_hit:
+    for g, _, _ in bad:          # every mismatching group (reported by LABEL) must be one of the groups hit
+        if g not in groups_hit:
             return False
     return True
 
